@@ -922,7 +922,8 @@ def l1c_suite(quick=120, thorough=3000):
         return inner(ctx)
     return f
 
-register('C04', [l1c_suite()], ['a crash is the loss of every request after some point of the sequential request stream; node PUTs of one flush are explored in the order they were observed'])
+register('C04', [l1c_suite(), l2_suite('tx', name='l2-tx', quick=40, thorough=1000,
+                                       determined='an acknowledged COMMIT is not what a later open shows')], ['a crash is the loss of every request after some point of the sequential request stream; node PUTs of one flush are explored in the order they were observed'])
 
 # ---------------------------------------------------------------- more L2 monitors
 def l2_ops(impl_line):
@@ -1107,6 +1108,8 @@ register('C12', [l2_suite('changes', native=False, name='l2-changes', determined
                  l1_suite(['rows'], name='l1f', quick=120, monitor=determined_result_monitor('a diff / open under storage faults neither fails nor returns the complete answer'))],
          ['storage faults around the two version opens of a diff are injected at the kv level (L1); the SQL level runs fault-free'])
 register('C11', [l2_suite('changes', native=False, name='l2-changes', determined='reading a recorded version list returns other rows than were visible when it was recorded'),
+                 l2_suite('tx', name='l2-tx', quick=40, thorough=1000,
+                          determined='s3db_version() answers although the connection sees uncommitted rows that no version holds (or refuses / differs where a version identifies the visible rows)'),
                  l1_suite(['rows', 'plain'], monitor=chain(mutation_order_monitor, determined_result_monitor('an open restricted to recorded versions (or a later read) returns other entries than those versions hold')))], [])
 register('C16', [l2_suite('multi', native=False, extra_monitor=c02_monitor, name='l2-multi'), l0_suite(['nodecodec']), l1_suite(['rows']),
                  l2_suite('vacuum', native=False, extra_monitor=c09_monitor, name='l2-vacuum', quick=40, thorough=1000),
@@ -1212,6 +1215,11 @@ def c20_suite(quick=300, thorough=8000):
             a = impl[k] if k < len(impl) else '<missing>'
             mline, spec = split_spec(model[k] if k < len(model) else '<missing>')
             at, mt = a.split()[1:], mline.split()[1:]
+            if fn == 'probe':
+                res.nontrivial += 1
+                if at[:1] != ['ok']:
+                    fail(c, a, 'probe ' + ' '.join(c.split()[2:3]) + ': ' + ' '.join(at)[:400])
+                continue
             if (at[:1] == ['ok'] and c.count(' n ') >= 2) or at[:1] == ['err']:
                 res.nontrivial += 1
             flags = [t for t in at if t in ('LEAK', 'NAME-TAKEN', 'NULL-ACCEPTED', 'NULL-REFUSED', 'TIERR')]
@@ -1253,7 +1261,9 @@ def c20_suite(quick=300, thorough=8000):
     return f
 
 register('C19', [l2_suite('threads', native=True, name='l2-threads', level='l2t', binary='harness-race', quick=48, thorough=1200,
-                          extra_monitor=lambda *a: (c15_monitor(*a), c02_monitor(*a)))],
+                          extra_monitor=lambda *a: (c15_monitor(*a), c02_monitor(*a))),
+                 l2_suite('cachemix', native=False, name='l2-cachemix', quick=12, thorough=300, extra_monitor=c09_monitor,
+                          determined='connections of one process on one prefix, some with a node cache: a connection reads other rows than the statements explain (cross-talk through process-wide state)')],
          ['every world (its connections, tables, bucket) is independent of the others; only process-wide state is shared'])
 register('C20', [c20_suite()], ['the lexical level (regular expressions, quoting, case folding) is exercised through rendering, not modelled; SQLite\'s own parsing of the declared CREATE TABLE text is observed through PRAGMA table_info'])
 
